@@ -79,3 +79,14 @@ func (db *DB) verifDumpLocked() (s VerifState, err error) {
 	s.GCTarget = db.gcTarget()
 	return s, nil
 }
+
+// VerifWaitUpdateGC waits until every background access-time update started by
+// request-mode gets has finished (a quiescent point for index dumps).
+func (db *DB) VerifWaitUpdateGC() { db.updateGCWG.Wait() }
+
+// VerifGCRunning reports whether a collection run is in progress.
+func (db *DB) VerifGCRunning() bool {
+	db.batchMu.Lock()
+	defer db.batchMu.Unlock()
+	return db.gcRunning
+}
